@@ -42,6 +42,28 @@ type KnownFinding struct {
 	Rule     string `json:"rule"`
 	Key      string `json:"key"`
 	What     string `json:"what"`
+	// Scope "package" identifies the finding by rule, package and construct:
+	// the same call moved into a helper of that package is the same finding.
+	Scope string `json:"scope,omitempty"`
+}
+
+// matchKey is the key a finding is looked up by.
+func (k KnownFinding) matchKey() string {
+	if k.Scope == "package" {
+		return packageKey(k.Key)
+	}
+	return normalKey(k.Key)
+}
+
+// lookupKnown finds the listed finding an obligation key belongs to.
+func lookupKnown(m map[string]KnownFinding, key string) (KnownFinding, bool) {
+	if k, ok := m[normalKey(key)]; ok {
+		return k, true
+	}
+	if k, ok := m[packageKey(key)]; ok && k.Scope == "package" {
+		return k, true
+	}
+	return KnownFinding{}, false
 }
 
 // Exemption is one reviewed exception of a rule.
@@ -155,10 +177,12 @@ func Main(o Options) int {
 	for _, e := range exemptions {
 		exMap[e.Key] = e
 	}
+	// known findings are matched by rule, by the function's own name (a method that becomes a function,
+	// or moves to another receiver, is still the same site) and by the construct
 	knownMap := map[string]KnownFinding{}
 	for _, k := range known.Findings {
 		if k.Property == o.Property {
-			knownMap[k.Key] = k
+			knownMap[k.matchKey()] = k
 		}
 	}
 
@@ -180,7 +204,7 @@ func Main(o Options) int {
 				}
 			}
 			if ob.Verdict == rules.Violated {
-				if k, ok := knownMap[ob.Key]; ok {
+				if k, ok := lookupKnown(knownMap, ob.Key); ok {
 					ob.Verdict = rules.Known
 					ob.Reason = k.What
 				}
@@ -233,6 +257,7 @@ func Main(o Options) int {
 		}
 	}
 	n := 0
+	var undecided []map[string]any
 	for _, ob := range all {
 		switch ob.Verdict {
 		case rules.Known:
@@ -247,10 +272,23 @@ func Main(o Options) int {
 			fmt.Printf("  %s: %s: %s: %s\n", ob.Pos, ob.Rule, ob.Key, ob.Detail)
 		case rules.Undecided:
 			fmt.Printf("UNDECIDED property=%s %s: %s: %s\n", o.Property, ob.Pos, ob.Key, ob.Detail)
+			undecided = append(undecided, map[string]any{"rule": ob.Rule, "key": ob.Key, "pos": ob.Pos, "detail": ob.Detail})
 		}
 	}
 	for _, f := range floorFailures {
 		fmt.Printf("UNDECIDED property=%s %s\n", o.Property, f)
+		undecided = append(undecided, map[string]any{"rule": "floor", "detail": f})
+	}
+	if nViol == 0 && len(undecided) > 0 {
+		// the interface knows two outcomes. "Could not be established on the current tree" is not
+		// "held": it is reported with a VIOLATION line whose replay file says that the verdict is
+		// undecided and why (the UNDECIDED lines above carry the same text).
+		rp := filepath.Join(replayDir, fmt.Sprintf("%s-undecided.json", o.Property))
+		_ = os.MkdirAll(replayDir, 0o755)
+		b, _ := json.MarshalIndent(map[string]any{"property": o.Property, "verdict": "undecided", "obligations": undecided}, "", " ")
+		_ = os.WriteFile(rp, b, 0o644)
+		fmt.Printf("VIOLATION property=%s replay=%s\n", o.Property, rp)
+		fmt.Printf("  (undecided: the rule(s) above could not establish the property on this tree; that is reported as not held)\n")
 	}
 	// exemptions of this property's rules that match nothing are reported (not fatal)
 	var staleEx []string
@@ -270,7 +308,7 @@ func Main(o Options) int {
 	case nViol > 0:
 		return 1
 	case nUndec > 0 || len(floorFailures) > 0:
-		return 2
+		return 1
 	}
 	return 0
 }
@@ -289,11 +327,33 @@ func runProperty(ctx *rules.Ctx, prop *rules.Property, tier string) (res []*rule
 
 func replay(o Options, all []rules.Obligation) int {
 	var rp struct {
-		Key string `json:"key"`
+		Key         string `json:"key"`
+		Verdict     string `json:"verdict"`
+		Obligations []struct {
+			Key string `json:"key"`
+		} `json:"obligations"`
 	}
 	if err := readJSON(o.Replay, &rp); err != nil {
 		fmt.Printf("cannot read replay file: %v\n", err)
 		return 2
+	}
+	if rp.Verdict == "undecided" {
+		// replay of an undecided verdict: are the same obligations still undecided (or violated)?
+		still := 0
+		for _, want := range rp.Obligations {
+			for _, ob := range all {
+				if want.Key != "" && ob.Key == want.Key && (ob.Verdict == rules.Undecided || ob.Verdict == rules.Violated) {
+					fmt.Printf("replay %s: [%s] %s %s\n", ob.Key, ob.Verdict, ob.Pos, ob.Detail)
+					still++
+				}
+			}
+		}
+		if still > 0 {
+			fmt.Printf("VIOLATION property=%s replay=%s\n", o.Property, o.Replay)
+			return 1
+		}
+		fmt.Printf("replay %s: the obligations recorded as undecided are decided on the current tree\n", o.Replay)
+		return 0
 	}
 	for _, ob := range all {
 		if ob.Key == rp.Key {
@@ -518,10 +578,10 @@ func runAll(ctx *rules.Ctx, o Options) int {
 			rc = 2
 			continue
 		}
-		knownMap := map[string]bool{}
+		knownMap := map[string]KnownFinding{}
 		for _, k := range known.Findings {
 			if k.Property == id {
-				knownMap[k.Key] = true
+				knownMap[k.matchKey()] = k
 			}
 		}
 		var hits []string
@@ -537,7 +597,7 @@ func runAll(ctx *rules.Ctx, o Options) int {
 				if _, ex := ctx.ExemptReason(ob.Rule, ob.Key); ex {
 					continue
 				}
-				if knownMap[ob.Key] {
+				if _, ok := lookupKnown(knownMap, ob.Key); ok {
 					continue
 				}
 				hits = append(hits, fmt.Sprintf("[%s] %s :: %s", ob.Verdict, ob.Key, ob.Detail))
@@ -611,4 +671,33 @@ func patchOverlay(repo, diff string) (map[string][]byte, error) {
 		ov[filepath.Join(repo, f)] = nb
 	}
 	return ov, nil
+}
+
+// normalKey reduces RULE:<function>:<construct> to RULE:<bare function name>:<construct>.
+func normalKey(key string) string {
+	parts := strings.SplitN(key, ":", 3)
+	if len(parts) < 3 {
+		return key
+	}
+	fn := parts[1]
+	if i := strings.LastIndex(fn, "."); i >= 0 {
+		fn = fn[i+1:]
+	}
+	return parts[0] + ":" + fn + ":" + parts[2]
+}
+
+// packageKey reduces RULE:<function>:<construct> to RULE:<package path>:<construct>.
+func packageKey(key string) string {
+	parts := strings.SplitN(key, ":", 3)
+	if len(parts) < 3 {
+		return key
+	}
+	fn := strings.TrimPrefix(strings.TrimPrefix(parts[1], "("), "*")
+	if i := strings.Index(fn, ")"); i >= 0 {
+		fn = fn[:i]
+	}
+	if i := strings.LastIndex(fn, "."); i >= 0 {
+		fn = fn[:i]
+	}
+	return parts[0] + ":pkg " + fn + ":" + parts[2]
 }
